@@ -88,6 +88,13 @@ def c19_run(rep, rng, tier):
             if got != s:
                 viol.append({'oracle': 'C19.' + what, 'case': payload, 'msg': '%s gives %r for input %r' % (what, got, s)})
                 break
+        # the classification methods of each removed sequence (the glue AnsiString relies on to pick SGR sequences)
+        for v in p.sequences.values():
+            for q in v:
+                tv = len(q.terminator) == 1 and 0x40 <= ord(q.terminator) <= 0x7e
+                if q.is_terminator_valid() != tv or q.is_graphic() != (q.terminator == 'm'):
+                    viol.append({'oracle': 'C19.classify', 'case': payload,
+                                 'msg': 'sequence %r terminator %r: is_terminator_valid()=%s is_graphic()=%s' % (q.sequence, q.terminator, q.is_terminator_valid(), q.is_graphic())})
         # correspondence with the model
         munf = to_str(a[0])
         mseqs = {k: [(to_str(b), (chr(t[0]) if t else '')) for (b, t) in l] for (k, l) in a[1]}
